@@ -137,7 +137,7 @@ class DynBaseRefDict(RefDict):
 
         if isinstance(value.interface, Interface) and value.interface._is_valid():
 
-            if value.is_relative:   # value.is_relative is set to True
+            if value.refmode != "absolute":   # value.is_relative is set to True
                                     # When value.is_defined and
                                     # value.refmode == "relative"
 
